@@ -3,9 +3,9 @@
 (* {paragraph, 1x1 table, 1x1 table whose cell has two paragraphs}.           *)
 EXTENDS DocxOrderImpl
 CONSTANT MaxB
-Pp  == [k |-> "P", ch |-> << [w |-> "r", a |-> <<"t">>] >>, lvl |-> 0, how |-> "", num |-> "", tb |-> NoTbl]
-Tb(mp) == [k |-> "TBL", ch |-> <<>>, lvl |-> 0, how |-> "", num |-> "",
+Pp  == [k |-> "P", ch |-> << [w |-> "r", a |-> <<"t">>] >>, lvl |-> 0, how |-> "", num |-> "", sty |-> 0, tb |-> NoTbl]
+Tb(mp) == [k |-> "TBL", ch |-> <<>>, lvl |-> 0, how |-> "", num |-> "", sty |-> 0,
            tb |-> [rows |-> 1, cols |-> 1, hm |-> <<>>, vm |-> <<>>, mp |-> mp, rc |-> <<>>]]
 Sh == {Pp, Tb(<<>>), Tb(<< <<1, 1>> >>)}
-ImplDocs == {[fmt |-> "docx", body |-> b, hdr |-> 0, ftr |-> 0] : b \in UNION {[1..n -> Sh] : n \in 1..MaxB}}
+ImplDocs == {[fmt |-> "docx", body |-> b, hdr |-> 0, ftr |-> 0, sheet |-> <<>>] : b \in UNION {[1..n -> Sh] : n \in 1..MaxB}}
 =============================================================================
